@@ -29,7 +29,7 @@ RULE = (
     "the new objects), poison (overwrite the user's params object that was passed to the previous call), twin (build, solve and simulate ANOTHER model with the same names/signatures but other table contents in between), reuse_dict (overwrite ONE long-lived params dict in place with another variant's values and pass the same object again)}. Model: a "
     "memo keyed by the VALUES of the arguments holding the first result; after every operation the result must "
     "equal the memo entry (floats 1e-12, discrete exact, identical leaf values for the three leaf types), the user's "
-    "Model (functions dict, signatures, grids) and the params object passed in must be unchanged (deep structural "
+    "Model (functions dict, signatures, grids) and the params object and the vf_arr_list passed in must be unchanged (deep structural "
     "equality incl. leaf types). For 1 in 4 histories the solution and a simulation are recomputed in fresh "
     "subprocesses under two other PYTHONHASHSEED values and compared (1e-12). Non-trivial: >=2 distinct parameter "
     "variants interleaved (A, B, A) and >=1 rebuild; distinct by case digest."
@@ -184,6 +184,7 @@ def check(case):
     leaves = [v["leaf"] for v in case["variants"]]
     last_params = None
     held = None
+    sols = {}
     history = []
     for op in case["ops"]:
         kind = op["op"]
@@ -271,8 +272,16 @@ def check(case):
             res = call_lcm(fns["solve"], params)
         elif kind == "simulate":
             key = ("simulate", pi, op["a"], op["s"])
-            sol = call_lcm(fns["solve"], params)
+            # the caller solves once and passes the SAME list object to several simulate calls;
+            # the list (an argument of the call) must not be modified
+            if pi not in sols:
+                sols[pi] = call_lcm(fns["solve"], params)
+            sol = sols[pi]
+            ids_before = [id(x) for x in sol]
             res = call_lcm(fns["simulate"], params, initial_states=init, vf_arr_list=sol, seed=seed)
+            if [id(x) for x in sol] != ids_before:
+                msgs.append("operation simulate modified the list of value arrays passed in as vf_arr_list")
+                break
         else:
             key = ("sas", pi, op["a"], op["s"])
             res = call_lcm(fns["solve_and_simulate"], params, initial_states=init, seed=seed)
@@ -342,7 +351,7 @@ def check(case):
                   nontrivial=interleaved and cnt["rebuilds"] >= 1, info=cnt)
     if msgs:
         out.status, out.reason = "violation", msgs[0]
-        out.bucket = "purity:" + ("params_modified" if "params object" in msgs[0] else "model_modified" if "Model object" in msgs[0] else "hashseed" if "PYTHONHASHSEED" in msgs[0] else "history")
+        out.bucket = "purity:" + ("params_modified" if "params object" in msgs[0] or "vf_arr_list" in msgs[0] else "model_modified" if "Model object" in msgs[0] else "hashseed" if "PYTHONHASHSEED" in msgs[0] else "history")
         return out
     s = sample_of(base_spec)
     s["history"] = history
